@@ -19,7 +19,6 @@ import json
 import os
 import random
 import shutil
-import sys
 from concurrent.futures import ThreadPoolExecutor
 
 from vlib import loader, tlc
@@ -147,13 +146,13 @@ def _make_logging_fs(LocalAsyncFS, log):
 
 async def _run_case(fs, Copier, Transfer, rec, run_dir, sema_n, seed, idx, log):
     c = rec["c"]
-    base = run_dir / f"c{idx}s{sema_n}"  # never reused: tasks the copier leaves behind after an error cannot touch a later run
+    base = run_dir / f"c{idx}s{sema_n}r{seed}"  # never reused: tasks the copier leaves behind after an error cannot touch a later run
     if base.exists():
         shutil.rmtree(base)
     src_base, dest_base = base / "src", base / "dest"
     src_base.mkdir(parents=True)
     dest_base.mkdir()
-    rng = random.Random(f"{seed}/{idx}")
+    rng = random.Random(f"{seed}/{idx}/{sema_n}")  # each run of a case draws its own file sizes
     files = [("src", p) for p in rec["src"]] + [("dest", p) for p in rec["dst"]]
     sizes = _sizes(rng, len(files), c["size"], c["ps"])
     table, empties, src_size = {}, [], None
@@ -245,9 +244,10 @@ async def _harness(ctx, recs, run_dir):
                     LocalAsyncFS.copy_part_size = staticmethod(lambda url, _ps=c["ps"]: _ps)
                     if fs.copy_part_size("/x") != c["ps"]:
                         raise MachineryError("part size patch is not effective")
-                    semas = SEMAS if not ctx.quick else (SEMAS[(idx + ctx.seed) % len(SEMAS)],)
-                    for sn in semas:
-                        case, trace = await _run_case(fs, Copier, Transfer, rec, run_dir, sn, ctx.seed, idx, log)
+                    # quick: one run per case (semaphore size rotating); thorough: every size, two draws of file sizes each
+                    runs = [(SEMAS[(idx + ctx.seed) % len(SEMAS)], 0)] if ctx.quick else [(sn, d) for sn in SEMAS for d in (0, 1)]
+                    for sn, draw in runs:
+                        case, trace = await _run_case(fs, Copier, Transfer, rec, run_dir, sn, ctx.seed + 7919 * draw, idx, log)
                         cases.append(case)
                         if trace is not None:
                             traces.append(trace)
@@ -281,10 +281,10 @@ def run(ctx):
     # ---- 1. the part machine, exhaustively; the same run evaluates ASSUME Golden (spec vs golden table) and ASSUME Gen
     (wd / "Parts.cfg").write_text(tlc.mk_cfg(spec="PartSpec", constants=consts,
                                              invariants=["PartTypeOK", "PlanOk", "Faithful", "Complete"],
-                                             properties=["NoRewrite", "WriteOnce", "PartsTerminate"]))
+                                             properties=["NoRewrite", "WriteOnce"] + ([] if ctx.quick else ["PartsTerminate"])))
     res = tlc.run(wd, "CopyToolGen", "Parts.cfg", workers=tw, coverage=True, env=env)
     ctx.add_tlc(res, f"CopyTool part machine, sizes 0..{consts['MaxSize']}, parts {consts['PartSizes']}, buffers {consts['BufSizes']}: "
-                     "PlanOk, Faithful, Complete, NoRewrite, WriteOnce, PartsTerminate; ASSUME Golden, Gen")
+                     "PlanOk, Faithful, Complete, NoRewrite, WriteOnce" + ("" if ctx.quick else ", PartsTerminate (liveness)") + "; ASSUME Golden, Gen")
     ctx.require_covered(res, ["Plan", "SingleChunk", "CopyAnyChunk", "Finish"])
     for v in res.violations:
         if v.kind == "assumption":
@@ -374,7 +374,7 @@ def run(ctx):
                    distinct_nontrivial=len({json.dumps(c["c"], sort_keys=True) for c in cases if c["out"]["kind"] == "tree"}),
                    exhaustive=True,
                    rule=f"TLC enumerates the case universe of CopyTool.tla at Level={consts['Level']} ({len(recs)} cases incl. all 324 golden "
-                        f"configurations and the size x part x buffer sweep), each run under {'1 (rotating)' if ctx.quick else len(SEMAS)} semaphore size(s) of {SEMAS}; "
+                        f"configurations and the size x part x buffer sweep), each run under {'1 (rotating)' if ctx.quick else len(SEMAS)} semaphore size(s) of {SEMAS}{'' if ctx.quick else ' x 2 draws of file sizes'}; "
                         "verdict by TLC on the resulting destination tree / exception class; non-trivial = distinct cases ending in a tree; "
                         f"{len(traces)} recorded copies ({multi} multi-part) validated event by event against the part machine")
     ctx.cov["golden_table"] = {"rows": rep["n"], "reproduced_by_spec": rep["n"] - len(rep["mismatches"]), "error_rows": rep["errors"]}
